@@ -304,6 +304,19 @@ def designs(tier):
     return ds
 
 
-def run_design(tier, k, **kw):
+def design_tasks(tier):
+    """one task per (design, clock event) so that multi-clock designs run in parallel"""
+    out = []
+    for k, (_n, _b, events, _l) in enumerate(designs(tier)):
+        if events is None:
+            out.append(("design", tier, k, None))
+        else:
+            out += [("design", tier, k, e) for e in range(len(events))]
+    return out
+
+
+def run_design(tier, k, e=None, **kw):
     name, build, events, low = designs(tier)[k]
+    if e is not None:
+        events = [events[e]]
     return check_design(f"design[{name}]", build(), events=events, low_resets=low, **kw)
